@@ -13,12 +13,12 @@ QUICK_MERGE = {2: [0, 1, 4, 5, 8], 3: [0, 9, 13, 23, 26]}
 SHAPES = []
 for n in (2, 3, 4):
     for sh in range(3 ** n):
-        tiers = Q if sh in QUICK_CHAIN[n] else T
+        tiers = Q if (sh in QUICK_CHAIN[n] or n <= 3) else T
         SHAPES.append(inst(F, "c09_chain%d_s%02d" % (n, sh), tiers, "%d sources with %s pending messages" % (n, digits(sh, n)),
                            "M1 chain == concatenation, consecutive indices", covers=1, timeout=1800, cost=n))
 for n in (2, 3):
     for sh in range(3 ** n):
-        tiers = Q if sh in QUICK_MERGE[n] else T
+        tiers = Q if (sh in QUICK_MERGE[n] or n == 2) else T
         SHAPES.append(inst(F, "c09_merge%d_s%02d" % (n, sh), tiers, "%d sources with %s pending messages" % (n, digits(sh, n)),
                            "M3 merge step: min head returned, heap = other heads + next of same source", covers=1, timeout=1800, cost=10 * n, mem_gb=24))
 
@@ -47,7 +47,7 @@ PROP = {
         inst(F, "c09_chain_nos2_s04", Q, "new_or_single_it with 2 sources [1,1]", "M1 via new_or_single_it: behaves like new() for >= 2 sources", covers=1, timeout=1800),
         inst(F, "c09_chain_nos2_s05", Q, "new_or_single_it with 2 sources [2,1]", "M1 via new_or_single_it", covers=1, timeout=1800),
         inst(F, "c09_chain_nos3_s13", Q, "new_or_single_it with 3 sources [1,1,1]", "M1 via new_or_single_it", covers=1, timeout=1800),
-        inst(F, "c09_chain_nos2_s03", T, "new_or_single_it with 2 sources [0,1]", "M1 via new_or_single_it", covers=1, timeout=1800),
-        inst(F, "c09_chain_nos3_s21", T, "new_or_single_it with 3 sources [0,1,2]", "M1 via new_or_single_it", covers=1, timeout=1800),
+        inst(F, "c09_chain_nos2_s03", Q, "new_or_single_it with 2 sources [0,1]", "M1 via new_or_single_it", covers=1, timeout=1800),
+        inst(F, "c09_chain_nos3_s21", Q, "new_or_single_it with 3 sources [0,1,2]", "M1 via new_or_single_it", covers=1, timeout=1800),
     ] + SHAPES,
 }
